@@ -12,3 +12,5 @@ package ssh
 //@   pure
 //@   ensures err == nil ==> v != nil && vKeyID(toIfc(v)) == key.KeyID
 //@   ensures err != nil ==> v == nil
+//@   # A-errors: dependencies never answer with the policy package's "conditions unmet" sentinel
+//@   ensures !errIs(err, policy.ErrVerifierConditionsUnmet)
